@@ -61,7 +61,8 @@ def int_constant_producers(rep, prog, cg):
     if len(top) != 1:
         rep.anchor_missing(rule, 'impl Parser for IntConstant')
         return
-    fam = [b for b in prog.bodies.values() if b.crate == 'pilota_thrift_parser' and (b.id == top[0].id or b.owner_fn == top[0].id)]
+    # every non-test body of the crate that builds an IntConstant is a producer (closures of parse, or helpers it hands to map_res)
+    fam = [b for b in prog.bodies.values() if b.crate == 'pilota_thrift_parser' and '::tests::' not in b.key and '::test::' not in b.key]
     n = 0
 
     def is_i64_conv(b, e):
@@ -84,7 +85,7 @@ def int_constant_producers(rep, prog, cg):
                 if r.get('k') == 'agg' and r['kind'].endswith('IntConstant::IntConstant'):
                     n += 1
                     x = b.expr_op(r['ops'][0])
-                    key = '%s|%s|IntConstant(%s)' % (rule, b.key.split('::')[-1], re.sub(r'\b(arg\d+|_\d+|[a-z_][a-z0-9_]*)\.0', 'v.0', show(mirlib.nosite(x)))[:80])
+                    key = '%s|%s|IntConstant(%s)' % (rule, 'closure' if b.kind == 'Closure' else 'fn', re.sub(r'\b(arg\d+|_\d+|[a-z_][a-z0-9_]*)\.0', 'v.0', show(mirlib.nosite(x)))[:80])
                     inner = x
                     while inner[0] == 'try':
                         inner = inner[1]
@@ -101,13 +102,13 @@ def int_constant_producers(rep, prog, cg):
                 if f[0] == 'fnref' and f[1].endswith('::IntConstant'):
                     n += 1
                     recv = cs.arg(0)
-                    key = '%s|%s|map(IntConstant)' % (rule, b.key.split('::')[-1])
+                    key = '%s|%s|map(IntConstant)' % (rule, 'closure' if b.kind == 'Closure' else 'fn')
                     if is_i64_conv(b, recv) and not any(y[0] == 'cast' for y in subexprs(recv)):
                         rep.ok(rule, key, 'constructor mapped over %s' % mirlib.short(recv[1]), cs.loc())
                     else:
                         rep.bad(rule, key, cs.loc(), 'IntConstant constructor mapped over %s: only an i64 conversion of a sign-less digit lexeme keeps the value >= 0 (see the negation branch)' % show(recv))
             # the lexemes converted are digit1 / hex_digit1 (no sign character)
-            if cs.name == 'map_res' and cs.t['args']:
+            if cs.name == 'map_res' and cs.t['args'] and (b.id == top[0].id or b.owner_fn == top[0].id):
                 lex = cs.arg(0)
                 key = '%s|lexeme|%s' % (rule, show(mirlib.nosite(lex))[:60])
                 if lex[0] == 'fnref' and re.search(r'::(digit1|hex_digit1)$', lex[1]):
